@@ -4,6 +4,7 @@ import (
 	"fmt"
 	"os"
 	"path/filepath"
+	"runtime"
 	"sync"
 	"sync/atomic"
 	"testing"
@@ -52,6 +53,9 @@ func Wait() { synctest.Wait() }
 
 var HangLimit = 180 * time.Second
 
+// MemLimit: heap size at which the watchdog gives up (VERIF_MEM_LIMIT_MB overrides).
+var MemLimit uint64 = 24 << 30 // replaced by 60 % of MemTotal when /proc/meminfo is readable
+
 // GuardProperty is set by NewRun.
 var GuardProperty string
 
@@ -80,6 +84,15 @@ func StartGuard() {
 		if n := envInt("VERIF_HANG_LIMIT_S", 0); n > 0 {
 			HangLimit = time.Duration(n) * time.Second
 		}
+		if b, err := os.ReadFile("/proc/meminfo"); err == nil {
+			var kb uint64
+			if _, err := fmt.Sscanf(string(b), "MemTotal: %d kB", &kb); err == nil && kb > 0 {
+				MemLimit = kb * 1024 / 10 * 6 // 60 % of the machine
+			}
+		}
+		if n := envInt("VERIF_MEM_LIMIT_MB", 0); n > 0 {
+			MemLimit = uint64(n) << 20
+		}
 		go guardWatch()
 	})
 }
@@ -107,6 +120,30 @@ func guardWatch() {
 		time.Sleep(time.Second)
 		now := int64(time.Since(t0) / time.Second)
 		guardClock.Store(now)
+		// the same for memory: executions use kilobytes; code under test that allocates without end would take the
+		// machine down (the sandbox has no memory limit) instead of producing a verdict
+		if now%2 == 0 {
+			var ms runtime.MemStats
+			runtime.ReadMemStats(&ms)
+			if ms.HeapAlloc > MemLimit {
+				guard.mu.Lock()
+				desc := "(no execution registered)"
+				var oldest int64 = 1 << 62
+				for _, s := range guard.slots {
+					if s.start < oldest {
+						oldest, desc = s.start, s.desc
+					}
+				}
+				guard.mu.Unlock()
+				dir := filepath.Join(Root, "evidence", "replays")
+				os.MkdirAll(dir, 0o755)
+				path := filepath.Join(dir, GuardProperty+"-execution-exhausts-memory-1.json")
+				os.WriteFile(path, []byte(fmt.Sprintf("{\n \"property\": %q,\n \"sub\": \"hang\",\n \"finding\": {\"sig\": \"execution-exhausts-memory\", \"what\": %q}\n}\n", GuardProperty,
+					fmt.Sprintf("the check's heap grew beyond %d MiB (normal: well under a tenth of that): code under test allocates without end; longest-running execution: %s", MemLimit>>20, desc))), 0o644)
+				fmt.Printf("VIOLATION property=%s replay=%s\n  sig=execution-exhausts-memory\n  heap beyond %d MiB; longest-running execution: %s\n", GuardProperty, path, MemLimit>>20, desc)
+				os.Exit(1)
+			}
+		}
 		guard.mu.Lock()
 		for _, s := range guard.slots {
 			if time.Duration(now-s.start)*time.Second > HangLimit {
